@@ -91,56 +91,46 @@ impl LineIndex {
         }
     }
 
-    // get offset by line and col
-    pub fn get_offset(&self, line: usize, col: usize, source_text: &str) -> Option<TextSize> {
-        let start_offset = self.get_line_offset(line)?;
-        if col == 0 {
-            return Some(start_offset);
-        }
-
-        if self.is_line_only_ascii_index(line) {
-            let col = col.min(source_text.len());
-            Some(start_offset + TextSize::from(col as u32))
-        } else {
-            let mut offset = 0;
-            let mut col = col;
-            for c in source_text[usize::from(start_offset)..].chars() {
-                if col == 0 {
-                    break;
-                }
-
-                offset += c.len_utf8();
-                col -= 1;
-            }
-            Some(start_offset + TextSize::from(offset as u32))
+    /// Offset of the end of `line`: just before the line break that terminates it, or the end
+    /// of the text for the last line.
+    fn get_line_end_offset(&self, line: usize, source_text: &str) -> usize {
+        match self.line_offsets.get(line + 1) {
+            Some(next_line_start) => (*next_line_start as usize).saturating_sub(1),
+            None => source_text.len(),
         }
     }
 
+    // get offset by line and col
+    pub fn get_offset(&self, line: usize, col: usize, source_text: &str) -> Option<TextSize> {
+        let start_offset = self.get_line_offset(line)?;
+        let col_offset = self.get_col_offset_at_line(line, col, source_text)?;
+        Some(start_offset + col_offset)
+    }
+
+    /// Byte offset of column `col` relative to the start of `line`. A column past the end of
+    /// the line is clamped to the end of that line (LSP: "if the character value is greater
+    /// than the line length it defaults back to the line length").
     pub fn get_col_offset_at_line(
         &self,
         line: usize,
         col: usize,
         source_text: &str,
     ) -> Option<TextSize> {
-        let start_offset = self.get_line_offset(line)?;
+        let start_offset = usize::from(self.get_line_offset(line)?);
         if col == 0 {
             return Some(0.into());
         }
 
+        let end_offset = self.get_line_end_offset(line, source_text);
+        let line_text = source_text.get(start_offset..end_offset)?;
         if self.is_line_only_ascii_index(line) {
-            let col = col.min(source_text.len());
+            let col = col.min(line_text.len());
             Some(TextSize::from(col as u32))
         } else {
-            let mut offset = 0;
-            let mut col = col;
-            for c in source_text[usize::from(start_offset)..].chars() {
-                if col == 0 {
-                    break;
-                }
-
-                offset += c.len_utf8();
-                col -= 1;
-            }
+            let offset = line_text
+                .char_indices()
+                .nth(col)
+                .map_or(line_text.len(), |(offset, _)| offset);
             Some(TextSize::from(offset as u32))
         }
     }
